@@ -24,6 +24,11 @@ class C09(Prop):
             "tier, 276 enumerated histories: one EVENT/COUNT, n=2,3, each reply order, a client CLOSE resp. REQ with "
             "the same id inserted at every position, with no / a finished / a pending subscription of that id; 40% of the "
             "random histories may re-use an id that is still in flight (the class of the repaired finding K1); "
+            "joint observations: in half of the single-session random histories 60% of the adjacent messages of one child are emitted in "
+            "one go, with no sentinel in between (the sentinel is itself a message that reaches the client), and observed "
+            "jointly (MJoint, C09_joint_agreement_implies_oracle); in every tier 20 enumerated histories 'the same id "
+            "submitted twice, identical answers, the last child emits both of its answers in one go' (two identical merged "
+            "replies next to each other); "
             "one handler value serving several connections: 48 enumerated histories (2 sessions of the same NewMergeHandler "
             "result, 2 children, the same EVENT resp. COUNT id submitted on both, the four replies in all 24 orders, the "
             "children answering differently per session) in every tier, and n/8 more random histories with 2-3 sessions, each "
